@@ -4,5 +4,6 @@ CONSTANTS
   Space = "sim"
   Modes = {"C"}
   EmitCases = TRUE
+  PeekBudget = 0
 INVARIANTS Inv_Ctx Inv_End Inv_Conform
 CHECK_DEADLOCK FALSE
